@@ -142,6 +142,20 @@ def expectedFor {α} (i : Nat) : Bool → List (RegEv α) → List α
   | on, .unsub j :: r => expectedFor i (on && j != i) r
   | on, .emit x :: r => if on then x :: expectedFor i on r else expectedFor i on r
 
+/-- what the keyed handler table needs of the keys (`hash(handler)`): whenever
+an object is handed to `add_handler` / `del_handler`, its key differs from the
+key of every OTHER object registered at that moment.  (CPython: `id()`-derived
+hashes are distinct for objects alive at the same time; a registered child is
+kept alive by the parent's table, the object handed in by the caller.)  `subs`
+= the subscribers registered before the events. -/
+def KeysFresh {α} (key : Nat → Nat) : List Nat → List (RegEv α) → Prop
+  | _, [] => True
+  | subs, .sub i :: evs =>
+    (∀ j ∈ subs, j ≠ i → key j ≠ key i) ∧ KeysFresh key (if i ∈ subs then subs else subs ++ [i]) evs
+  | subs, .unsub i :: evs =>
+    (∀ j ∈ subs, j ≠ i → key j ≠ key i) ∧ KeysFresh key (subs.filter (· ≠ i)) evs
+  | subs, .emit _ :: evs => KeysFresh key subs evs
+
 /-- the time-out the gaps are measured against, in milliseconds -/
 def busWatchTimeoutMs : Nat := 200
 
